@@ -57,6 +57,8 @@ _h += [
        "Visitor2<'de,V> for KeyVisitor<'de,'_>::visit_borrowed_str", "Visitor2<'de,V> for KeyVisitor<'de,'_>::visit_string", "DeserializeSeed<'de> for ValueDeserializeSeed<'de,'_,T>::deserialize",
        "Deserializer2<'de,D> for ValueDeserializer<'de,'_>::deserialize_ignored_any"],
       "scripted object through the real deserialize_struct into a derive-shaped visitor, all three string forms, all field values — {b, zq}: the first undeclared field is the one reported; client returns the empty object"),
+    H("derive_shape_no_declared_fields", "C05.K.ufb.derive_shape.no_declared_fields", UFB, [B + "deserialize_struct"],
+      "an object type with no declared field ({b, zq} against fields = []): the server behaviour rejects the first key by name, the client behaviour returns the empty object"),
     H("struct_hook_goes_through_inner_behavior", "C05.K.ufb.struct_hook_inner", UFB, [B + "deserialize_struct"], "the struct hook calls the inner behaviour's deserialize_struct with the same name and fields"),
     H("value_deserializer_rejects_ignored_any_with_recorded_key", "C05.K.ufb.ignored_any_rejected", UFB, ["Deserializer2<'de,D> for ValueDeserializer<'de,'_>::deserialize_ignored_any"],
       "a value requested through deserialize_ignored_any yields unknown_field(recorded key, fields); with no recorded key the placeholder is used and the document is still rejected"),
@@ -169,6 +171,8 @@ def scan_wiring(repo):
 SCANS = [dict(name="C05.S.entry_wiring", fn=scan_wiring, desc="syntactic: server deserializers use UnknownFieldsBehavior<ValueBehavior>, client ones ValueBehavior")]
 
 MUTANTS = [
+    dict(name="empty_field_list_skips_the_check", file=UFB, **{"from": "        B::deserialize_struct(\n            de,\n            name,", "to": "        if fields.is_empty() {\n            return B::deserialize_struct(de, name, fields, visitor);\n        }\n        B::deserialize_struct(\n            de,\n            name,"},
+         expect=["C05.K.ufb.derive_shape.no_declared_fields"]),
     dict(name="key_not_recorded_for_visit_str", file=UFB, **{"from": "        *self.key = Some(Cow::Owned(value.to_string()));\n        visitor.visit_str(value)", "to": "        visitor.visit_str(value)"},
          expect=["C05.K.ufb.derive_shape.unknown_last", "C05.K.ufb.derive_shape.unknown_first", "C05.K.ufb.key_recorded"]),
     dict(name="stale_key_not_cleared", file=UFB, **{"from": "        self.key = None;\n        self.map.next_key_seed", "to": "        self.map.next_key_seed"},
